@@ -720,6 +720,11 @@ type wireEventList struct {
 // listVia passes an event list through its JSON or CBOR form (the compressed form re-derives
 // indices and hashes; the decoded list is pre-marked as verified by the library).
 func listVia(events []*Event, how string, mutate func(c *wireEventList)) (*EventList, bool) {
+	return listViaP(events, how, mutate, false)
+}
+
+// listViaP: as listVia; computeProduct asks the decoder to accumulate the product of the events
+func listViaP(events []*Event, how string, mutate func(c *wireEventList), computeProduct bool) (*EventList, bool) {
 	// the wire form of an event list (field names are the public format: i, hash, e), built by the
 	// harness from the events so that nothing unexported of the package is needed
 	cc := &wireEventList{}
@@ -732,7 +737,7 @@ func listVia(events []*Event, how string, mutate func(c *wireEventList)) (*Event
 	if mutate != nil {
 		mutate(cc)
 	}
-	var el EventList
+	el := EventList{ComputeProduct: computeProduct}
 	switch how {
 	case "json":
 		b, err := json.Marshal(cc)
